@@ -379,6 +379,9 @@ def run(tier, seed):
     vlib.conformance(o, FAMILY, "PipelineTrace", trace_cfg_of, "c01", g1 + g2, tag="tlcgen", **kw)
     vlib.conformance(o, FAMILY, "PipelineTrace", trace_cfg_of, "c01", rnd, tag="random", **kw)
     vlib.conformance(o, FAMILY, "PipelineTrace", trace_cfg_of, "c01", qb, tag="qbft", **kw)
+    # the pipeline's first mechanism -- one decided value per duty -- checked on the real qbft.Run against QBFT.tla
+    import qbft_common
+    qbft_common.consensus_stage(o, seed, thorough)
     # binding negative controls on recorded traces
     tr = vlib.split_traces(vlib.read_ndjson(vlib.workdir(PID) + "/trace_tlcgen.ndjson"))
     tr = [t for t in tr if t[0]["nv"] == 1]
